@@ -1,6 +1,6 @@
 """Control-structure skeletons -> py / ts / js / rs source with a map name -> header line.
 
-A function: {"name": str, "container": "top"|"method"|"arrow"|"funcexpr"|"curried"|"callback"|"defparam", "body": forest}
+A function: {"name": str, "container": "top"|"method"|"arrow"|"funcexpr"|"curried"|"callback"|"defparam"|"generator"|"genexpr"|"asyncfn"|"objmethod"|"classfield", "body": forest}
             (curried / callback / defparam: ts/js forms in which the function sits behind an expression-bodied arrow function or in
             a parameter default; rendered as plain functions in py/rs)
 A forest:   list of nodes;  a node: {"k": kind, "b": [forest, ...], ...}
@@ -230,8 +230,24 @@ def render_ts(funcs, typed=True, terse=False):
             w.add(0, f"const {f['name']} = (a{ann}) => f{w.fresh()}(a);")
             headers[f["name"]] = len(w.lines)
             continue
+        if c in ("objmethod", "classfield"):
+            # a method of an object literal / an arrow function assigned to a class field: one holder per function
+            k = w.fresh()
+            w.add(0, f"const holder{k} = {{" if c == "objmethod" else f"class Holder{k} {{")
+            w.add(1, f"{f['name']}(a{ann}) {{" if c == "objmethod" else f"{f['name']} = (a{ann}) => {{")
+            headers[f["name"]] = len(w.lines)
+            _ts_forest(w, f["body"], 2)
+            w.add(1, "}," if c == "objmethod" else "};")
+            w.add(0, "};" if c == "objmethod" else "}")
+            continue
         if c == "arrow":
             w.add(0, f"const {f['name']} = (a{ann}) => {{")
+        elif c == "generator":
+            w.add(0, f"function* {f['name']}(a{ann}) {{")
+        elif c == "genexpr":
+            w.add(0, f"const {f['name']} = function* (a{ann}) {{")
+        elif c == "asyncfn":
+            w.add(0, f"export async function {f['name']}(a{ann}) {{")
         elif c == "curried":  # the block-bodied function is only reachable through an expression-bodied arrow function
             w.add(0, f"const {f['name']} = (z{ann}) => (a{ann}) => {{")
         elif c == "callback":  # ... or is an argument of the call that an expression-bodied arrow function returns
@@ -251,7 +267,7 @@ def render_ts(funcs, typed=True, terse=False):
             w.add(1, "return cb;")
             w.add(0, "}")
         else:
-            w.add(0, "};" if c in ("arrow", "funcexpr", "curried") else "}")
+            w.add(0, "};" if c in ("arrow", "funcexpr", "curried", "genexpr") else "}")
     if in_class:
         w.add(0, "}")
     return "\n".join(w.lines) + "\n", headers
@@ -342,7 +358,8 @@ def render_rs(funcs, terse=False):
             w.add(0, "}")
             in_impl = False
         w.add(0, "")
-        w.add(0, f"fn {f['name']}(a: i32) {{")
+        qual = {"asyncfn": "pub async fn", "generator": "pub(crate) fn", "genexpr": "pub unsafe fn"}.get(f["container"], "fn")
+        w.add(0, f"{qual} {f['name']}(a: i32) {{")
         headers[f["name"]] = len(w.lines)
         _rs_forest(w, f["body"], 1)
         w.add(0, "}")
